@@ -79,6 +79,7 @@ def main(argv):
     ap.add_argument('--checks')
     ap.add_argument('--json')
     ap.add_argument('-v', action='store_true')
+    ap.add_argument('--jobs', type=int, default=1)
     a = ap.parse_args(argv)
     repo = os.environ.get('PVMON_REPO', '/repo')
     todo = []
@@ -94,7 +95,9 @@ def main(argv):
             todo.append(m)
     results = []
     missed = 0
-    for m in todo:
+
+    def one(m):
+        lines = []
         root, dst = make_copy(repo)
         try:
             if m.get('patch'):
@@ -107,6 +110,7 @@ def main(argv):
             if a.tests:
                 tests = run_tests(dst)
             row = {'mutant': m['name'], 'tests_pass': tests, 'checks': {}}
+            miss = 0
             for pid in m['props']:
                 rc, mechs, wall, out = run_check(pid, dst, os.path.join(root, 'out'), a.tier, a.seed)
                 row['checks'][pid] = {'rc': rc, 'mechanisms': [x[len('mechanism='):].split(' :: ')[0] for x in mechs][:6], 'wall_s': round(wall, 1)}
@@ -114,14 +118,21 @@ def main(argv):
                     rc = 3
                 status = {0: 'MISSED', 1: 'caught', 2: 'inconclusive', 3: 'HARNESS-ERROR'}.get(rc, 'rc=%d' % rc)
                 if rc != 1:
-                    missed += 1
-                print('%-34s %s %-12s %5.1fs tests=%s %s' % (m['name'], pid, status, wall, None if tests is None else tests[1][:40],
-                                                         '; '.join(row['checks'][pid]['mechanisms'][:3])), flush=True)
+                    miss += 1
+                lines.append('%-34s %s %-12s %5.1fs tests=%s %s' % (m['name'], pid, status, wall, None if tests is None else tests[1][:40],
+                                                               '; '.join(row['checks'][pid]['mechanisms'][:3])))
                 if a.v or rc == 3:
-                    print(out[-3000:])
-            results.append(row)
+                    lines.append(out[-3000:])
+            return row, miss, lines
         finally:
             shutil.rmtree(root, ignore_errors=True)
+    from concurrent.futures import ThreadPoolExecutor
+    with ThreadPoolExecutor(max_workers=max(1, a.jobs)) as ex:
+        for row, miss, lines in ex.map(one, todo):
+            results.append(row)
+            missed += miss
+            for l in lines:
+                print(l, flush=True)
     if a.json:
         with open(a.json, 'w') as f:
             json.dump(results, f, indent=1)
